@@ -149,6 +149,39 @@ def run(tier, seed):
                       "tags": ["concurrent-first-use"]},
                      "fingerprints computed by several threads at first use (or afterwards in that process) differ from the specification's", kind="oracle")
             break
+    # ---- texts that live only for the duration of the call (temporaries of equal length follow one another at the same
+    # address): whatever is remembered between calls must be keyed by the text's value
+    for alg_t in ("CRC-64-AVRO", "md5", "SHA-256"):
+        for width, stem in ((6, '{"type":"fixed","name":"F","size":'), (3, ""), (12, "\u00e9" * 40)):
+            wrong = None
+            for i in range(scale(tier, 120)):
+                got = fingerprint(stem + str(i * 7919 % (10 ** width)).zfill(width) + "}", alg_t)
+                want_t = stem + str(i * 7919 % (10 ** width)).zfill(width) + "}"
+                exp_t = spec_hex(want_t.encode("utf-8")) if alg_t == "CRC-64-AVRO" else hashlib.new(JAVA_NAMES.get(alg_t, alg_t), want_t.encode("utf-8")).hexdigest()
+                del want_t
+                run.cov["evaluations"] += 1
+                if got != exp_t and wrong is None:
+                    wrong = (i, got, exp_t)
+            run.tag("temporary-texts")
+            if wrong:
+                i, got, exp_t = wrong
+                t_ = stem + str(i * 7919 % (10 ** width)).zfill(width) + "}"
+                run.fail({"text_utf8_hex": t_.encode("utf-8").hex()[:200], "alg": alg_t, "impl": got, "expected": exp_t, "call_number": i,
+                          "tags": ["temporary-texts"]},
+                         "the fingerprint of a text that lives only for the call differs from the specification's (an earlier text of the same length answered)", kind="oracle")
+    # the everyday spelling: fingerprint(to_parsing_canonical_form(schema), ...) with nothing kept
+    wrong = None
+    for i in range(scale(tier, 150)):
+        sch_t = {"type": "fixed", "name": "ns.F", "size": 100 + i % 50}
+        got = fingerprint(to_parsing_canonical_form(sch_t), "CRC-64-AVRO")
+        exp_t = spec_hex(to_parsing_canonical_form(sch_t).encode("utf-8"))
+        run.cov["evaluations"] += 1
+        if got != exp_t and wrong is None:
+            wrong = (sch_t, got, exp_t)
+    run.tag("temporary-canonical-forms")
+    if wrong:
+        run.fail({"schema": wrong[0], "alg": "CRC-64-AVRO", "impl": wrong[1], "expected": wrong[2], "tags": ["temporary-canonical-forms"]},
+                 "fingerprint(to_parsing_canonical_form(schema)) differs from the specification's value of that text", kind="oracle")
     # ---- named digests and unknown names
     fixed = [a for a in algs if a != "CRC-64-AVRO" and not a.startswith("shake_")]
     sample = texts[:40] + rnd.sample(texts, min(60, len(texts)))
@@ -161,6 +194,9 @@ def run(tier, seed):
                "ripemd160", "whirlpool", "sha257", "UNKNOWN", "md4", "blake2b512", "SHA-1", "MD5 ", " md5", "sha384\x00",
                "SHA-512", "sha3-512", "BLAKE2B", "mdc2", "shake128"] + \
               ["".join(rnd.choice("abcdefSHAMD-_0123456789") for _ in range(rnd.randint(1, 9))) for _ in range(40)]
+    # names that contain what a message template would interpret (percent and brace directives, escapes), long and non-ASCII names
+    unknown += ["%", "%s", "%d", "100%", "md5%", "%(algorithm)s", "%%", "{", "}", "{}", "{0}", "{algorithm}", "{algorithm!r}", "\\", "\\n",
+                "sha\n256", "md5\t", "x" * 5000, "s\u00e9curis\u00e9", "\u2028", "sha256\U0001F600", "'", '"', "md5'", "None", "0"]
     unknown = [u for u in unknown if u not in FINGERPRINT_ALGORITHMS]
     reqs, meta = [], []
     for t in sample:
